@@ -33,22 +33,41 @@ def _add(store, stix_data, allow_custom=True, version=None):
     """
     # Parse everything first: if part of the content is refused, nothing of it
     # must have been added.
+    # Likewise the bookkeeping is done on the side and put in place at the end
+    # (e.g. a junk "modified" of an unvalidated dictionary fails only when
+    # compared with the versions already there).
+    staged = {}
     for stix_obj in _parse_all(stix_data, allow_custom, version):
+        stix_id = stix_obj["id"]
+        current = staged.get(stix_id, store._data.get(stix_id))
 
         # Map ID to a _ObjectFamily if the object is versioned, so we can track
         # multiple versions.  Otherwise, map directly to the object.  All
         # versioned objects should have a "modified" property.
         if "modified" in stix_obj:
-            if stix_obj["id"] in store._data:
-                obj_family = store._data[stix_obj["id"]]
-                obj_family.add(stix_obj)
-            else:
-                obj_family = _ObjectFamily()
-                obj_family.add(stix_obj)
-                store._data[stix_obj["id"]] = obj_family
+            obj_family = _ObjectFamily()
+            if isinstance(current, _ObjectFamily):
+                obj_family.all_versions = dict(current.all_versions)
+                obj_family.latest_version = current.latest_version
+            elif current is not None:
+                raise ValueError(
+                    "Can't add a version of %s: it is stored as an object "
+                    "without versions" % stix_id,
+                )
+            obj_family.add(stix_obj)
+            staged[stix_id] = obj_family
+
+        elif isinstance(current, _ObjectFamily):
+            # (it would silently replace every version stored so far)
+            raise ValueError(
+                "Can't add %s without 'modified': versions of it are "
+                "stored" % stix_id,
+            )
 
         else:
-            store._data[stix_obj["id"]] = stix_obj
+            staged[stix_id] = stix_obj
+
+    store._data.update(staged)
 
 
 def _parse_all(stix_data, allow_custom, version):
